@@ -1,4 +1,5 @@
 import PV.Model.Eval
+import PV.Model.Ops
 /-
   Driver operations: one request S-expression in, one reply S-expression out.
 -/
@@ -28,7 +29,46 @@ def pynumOp (op : String) (a b : Value) : Option R :=
   | "min" => some (Value.minmax true [a, b]) | "max" => some (Value.minmax false [a, b])
   | _ => none
 
-def handle : Sexp → Sexp
+def OpErr.toSexp : OpErr → Sexp
+  | .typeError => Sexp.mk "err" [.atom "TypeError"]
+  | .assertion => Sexp.mk "err" [.atom "AssertionError"]
+  | .noClaim => Sexp.mk "noclaim" []
+
+def OpR.toSexp : OpR → Sexp
+  | .ok e => e.toSexp
+  | .error e => OpErr.toSexp e
+
+def unOpOfName? : String → Option PyUnOp
+  | "neg" => some .neg | "pos" => some .pos | "invert" => some .invert | _ => none
+
+partial def progOfSexp? : Sexp → Option OpProg
+  | .list [.atom "leaf", e] => (Expr.ofSexp? e).map .leaf
+  | .list [.atom "bin", .atom o, p, q] => do
+      pure (.bin (← PyBinOp.ofName? o) (← progOfSexp? p) (← progOfSexp? q))
+  | .list [.atom "un", .atom o, p] => do
+      pure (.un (← unOpOfName? o) (← progOfSexp? p))
+  | _ => none
+
+def handleOps : Sexp → Option Sexp
+  | .list [.atom "opprog", p] =>
+    match progOfSexp? p with
+    | some p => some (OpR.toSexp p.build)
+    | none => some (bad "opprog")
+  | .list [.atom "truthy", e] =>
+    match Expr.ofSexp? e with
+    | some e => some (Sexp.ofBool e.truthy)
+    | none => some (bad "truthy")
+  | .list (.atom "flatsum" :: es) =>
+    match Expr.ofSexpL? es with
+    | some es => some (flattenedSum es).toSexp
+    | none => some (bad "flatsum")
+  | .list (.atom "flatprod" :: es) =>
+    match Expr.ofSexpL? es with
+    | some es => some (flattenedProduct es).toSexp
+    | none => some (bad "flatprod")
+  | _ => none
+
+def handleCore : Sexp → Sexp
   | .list [.atom "pynum", .atom op, a, b] =>
     match Value.ofSexp? a, Value.ofSexp? b with
     | some a, some b => match pynumOp op a b with
@@ -48,5 +88,10 @@ def handle : Sexp → Sexp
     | some e => e.toSexp
     | none => bad "echo"
   | _ => bad "unknown request"
+
+def handle (req : Sexp) : Sexp :=
+  match handleOps req with
+  | some r => r
+  | none => handleCore req
 
 end PV.Driver
